@@ -99,7 +99,10 @@ def case_history(rep):
             if by_maxiter:
                 kw.update(tol=1e-7, maxiter=5)
             if use_x0:
-                kw["x0"] = field.copy() if False else field
+                # the documented start field: the items' own container, or another container of the same layout (linked by the job)
+                kw["x0"] = field.copy() if rep % 8 == 6 else field
+                if rep % 8 == 6:
+                    run.units["trace:job-x0-distinct"] += 1
             raised = None
             try:
                 job.evaluate(**kw)
@@ -129,6 +132,10 @@ def case_history(rep):
                     run.fail("trace", "trace clause=stops-at-first-failure", "%s: %d results before the failure injected at substep %d" % (label, nyield, fail_at))
             elif raised is not None:
                 run.skip("trace", "a regular substep did not converge (history too severe): " + str(raised)[:40])
+            else:
+                # every drawn ramp value gave one converged substep (the number of values drawn here, not the step's own count)
+                run.compare("trace", "trace clause=one-result-per-ramp-value", float(abs(nyield - total)), 0.0,
+                            "%s: %d results for %d ramp values" % (label, nyield, total), unit="trace:results=ramp-values")
             run.configs.add("history:%s:%s:%s:%s:steps=%d:fail=%s" % (kind, fam, mat, "+".join(extras), nsteps, inject))
             run.extra["histories_failures_injected"] = run.extra.get("histories_failures_injected", 0) + int(inject)
             if len(run.samples) < 3:
@@ -359,6 +366,77 @@ def case_plasticity(rep):
     return fn
 
 
+def case_fe_history(rep):
+    """State-variable commits of other bodies inside a Step: a small-strain plasticity body (the state carries old strain and
+    old stress) and the nearly-incompressible body around a pseudo-elastic law; after every converged substep the committed state
+    is the one the law returns for the converged deformation and the state committed before, an injected failure leaves it as it was."""
+    def fn(run):
+        import felupe as fem
+        rng = rng_for(run.seed, "C15", "fe-history", rep)
+        which = ["plasticity", "ni-ogden-roxburgh", "plasticity-planestrain"][rep % 3]
+        mon = "history.fe"
+        if which == "plasticity-planestrain":
+            mesh, L = problems.box_mesh("quad", rng)
+            field = fem.FieldContainer([fem.FieldPlaneStrain(fem.RegionQuad(mesh), dim=2)])
+        else:
+            mesh, L = problems.box_mesh("hexahedron", rng)
+            field = fem.FieldContainer([fem.Field(fem.RegionHexahedron(mesh), dim=3)])
+        b, _ = fem.dof.uniaxial(field, clamped=True, move=0.0)
+        if which.startswith("plasticity"):
+            um = fem.LinearElasticPlasticIsotropicHardening(E=100.0, nu=float(rng.uniform(0.2, 0.35)), sy=1.0, K=float(rng.uniform(0, 20)))
+            body = fem.SolidBody(um, field)
+            move = np.array([0.005, 0.02, 0.02, 0.04, 0.01, -0.03, -0.03, 0.0, 0.05]) * float(L[0]) * float(rng.uniform(0.8, 1.2))
+            law = um
+        else:
+            law = fem.OgdenRoxburgh(fem.NeoHooke(mu=1.0), r=float(rng.uniform(2, 4)), m=1.0, beta=0.1)
+            body = fem.SolidBodyNearlyIncompressible(law, field, bulk=float(rng.uniform(100, 1000)))
+            move = np.array([0.1, 0.3, 0.15, 0.4, 0.2]) * float(L[0]) * float(rng.uniform(0.6, 1.0))
+        bad = int(rng.integers(2, len(move)))
+        # an infeasible value in the middle (small-strain kinematics never invert: there the failure is an exhausted iteration limit below)
+        moves = np.insert(move, bad, -4.0 * float(L[0])) if not which.startswith("plasticity") else move
+        step = fem.Step([body], ramp={b["move"]: moves}, boundaries=b)
+        sv = np.array(body.results.statevars, copy=True)
+        nconv, raised = 0, False
+        try:
+            for res in step.generate(verbose=False, tol=1e-10, maxiter=12):
+                Fc = res.x.extract()[0]
+                trial = np.asarray(law.gradient([Fc, sv])[-1], float)
+                new = np.asarray(body.results.statevars, float)
+                scale = max(maxabs(trial), 1e-300)
+                tol = 1e-12 if which.startswith("plasticity") else 1e-9
+                if not which.startswith("plasticity"):
+                    # the condensed body evaluates the law on its own (mixed) kinematics: the stored maximum energy is a running
+                    # maximum of the base energy at the converged states (never below the state committed before)
+                    run.compare(mon, "body=%s clause=committed-state-monotone" % which, max(0.0, float((sv - new).max())) / max(maxabs(new), 1e-300), 1e-12,
+                                "the stored maximum energy decreased over a converged substep", unit="fe-history:" + which, config=("fe-history", which))
+                else:
+                    run.compare(mon, "body=%s clause=committed-state-is-law-of-converged-state" % which, maxabs(new - trial) / scale, tol,
+                                "the state committed after a converged substep is not what the law returns for the converged deformation and the previous state",
+                                unit="fe-history:" + which, config=("fe-history", which))
+                sv = new.copy()
+                nconv += 1
+        except ValueError:
+            raised = True
+        if which.startswith("plasticity") and not raised and nconv == len(moves):
+            # a plastic jump that cannot converge within one iteration
+            b["move"].update(float(moves[-1]) + 0.2 * float(L[0]))
+            d0, d1 = fem.dof.partition(field, b)
+            e0 = fem.dof.apply(field, b, d0)
+            try:
+                fem.newtonrhapson(items=[body], dof0=d0, dof1=d1, ext0=e0, maxiter=1, tol=1e-12, verbose=False)
+            except ValueError:
+                raised, bad = True, nconv
+        after = np.asarray(body.results.statevars, float)
+        if raised and nconv == bad:
+            run.compare(mon, "body=%s clause=failure-leaves-committed-state" % which, maxabs(after - sv), 0.0,
+                        "a failing substep changed the committed state variables", unit="fe-history:failure:" + which)
+        elif not raised:
+            run.skip(mon, "the infeasible substep converged")
+        else:
+            run.skip(mon, "a regular substep failed before the injected one")
+    return fn
+
+
 def case_path_independence(rep):
     def fn(run):
         import felupe as fem
@@ -464,6 +542,8 @@ def cases(tier, seed):
         out.append(("path:%d" % rep, case_path_independence(rep)))
     for rep in range(8 if tier == "quick" else 24):
         out.append(("load-path:%d" % rep, case_load_path(rep)))
+    for rep in range(3 if tier == "quick" else 12):
+        out.append(("fe-history:%d" % rep, case_fe_history(rep)))
     for rep in range(1 if tier == "quick" else 4):
         out.append(("purity:%d" % rep, case_purity(rep)))
     for rep in range(3 if tier == "quick" else 9):
@@ -476,8 +556,8 @@ SPEC = {
                        "trace:commit-only-on-success", "trace:failure-no-commit", "trace:all-substeps", "trace:callback-per-yield",
                        "trace:injected-failure-position", "success:commit", "path-independence", "or:running-max:hand", "or:running-max:ad",
                        "or:running-max:tensortrax", "or:primary:hand", "or:primary:tensortrax", "or:reload:hand", "or:reload:tensortrax",
-                       "plasticity:yield", "plasticity:monotone", "plasticity:plastic-steps", "trace:state-carries-ramp-value", "trace:generate-with-distinct-x0",
-                       "load-path:pointload-axi", "load-path:pressure", "load-path:force", "load-path:pointload", "load-path:pointload-apply-on",
+                       "plasticity:yield", "plasticity:monotone", "plasticity:plastic-steps", "trace:state-carries-ramp-value", "trace:generate-with-distinct-x0", "trace:results=ramp-values", "trace:job-x0-distinct",
+                       "fe-history:plasticity", "fe-history:ni-ogden-roxburgh", "fe-history:failure:plasticity", "load-path:pointload-axi", "load-path:pressure", "load-path:force", "load-path:pointload", "load-path:pointload-apply-on",
                        "purity:committed-state-untouched:OgdenRoxburgh", "purity:committed-state-untouched:Plasticity", "purity:repeatable:tt.finite_strain_viscoelastic"],
     "rule": ("random load histories on small solids (hex8, tet4, quad4/8 plane strain, axisymmetric, nearly-incompressible, mixed): 1..3 "
              "steps of 1..5 substeps, monotone/cyclic/repeated/random ramps of 1..3 items (boundary, pressure, point load, body force), "
